@@ -19,9 +19,12 @@ Reply (one line): `<id> <marginal> ` then for every non-fixed node in ascending 
 `<denominator> <inside row: G> <outside row: G> <posterior probabilities: G> <mean> <variance>`
 (the last G+2 values are the post-processing of core.py: standardize, to linear space,
 to_probabilities, mean_var); or `<id> bad-op`.
+With a line `brute 1` the reply continues with ` | <bruteZ> ` and, per non-fixed node, the G exhaustive
+marginals of `Spec/BruteForce.lean` evaluated on `inp.toTreeModel` (small inputs only).
 -/
 import TsdateVerif.Model.Discrete
 import TsdateVerif.Model.Proto
+import TsdateVerif.Spec.BruteForce
 open Tsdate Tsdate.Proto Tsdate.Discrete
 
 def triples : List Nat → Option (List DEdge)
@@ -59,7 +62,7 @@ def childrenReady (fixed : Array Bool) (es : List DEdge) : Bool :=
     if aget fixed g.1 then acc else
     (acc.1 && g.2.all (fun e => aget fixed e.c || acc.2.contains e.c), g.1 :: acc.2)) (true, [])).1
 
-def runWith {α : Type} [Inhabited α] [Add α] [Sub α] [Mul α] [Div α] [OfNat α 0]
+def runWith {α : Type} [Inhabited α] [Add α] [Sub α] [Mul α] [Div α] [OfNat α 0] [OfNat α 1]
     (parse : String → Option α) (show_ : α → String) (o : Ops α) (toLin : α → α)
     (zero : α) (fracOk : α → Bool) (blk : List (List String)) : Option String := do
   let id ← (← field blk "case").head?
@@ -97,7 +100,14 @@ def runWith {α : Type} [Inhabited α] [Add α] [Sub α] [Mul α] [Div α] [OfNa
     let mv := meanVar probs times
     show_ (aget s.denom u) :: ((aget s.inside u).toList.map show_ ++ (aget out u).toList.map show_
       ++ probs.map show_ ++ [show_ mv.1, show_ mv.2]))
-  pure (id ++ " " ++ show_ marg ++ " " ++ " ".intercalate (rows.map (" ".intercalate ·)))
+  let base := id ++ " " ++ show_ marg ++ " " ++ " ".intercalate (rows.map (" ".intercalate ·))
+  match field blk "brute" with
+  | some _ =>
+    let M := inp.toTreeModel
+    let margs := (List.range n).filter (fun u => !(aget fx u)) |>.map (fun u =>
+      (List.range G).map (fun t => show_ (bruteMarginal M u t)))
+    pure (base ++ " | " ++ show_ (bruteZ M) ++ " " ++ " ".intercalate (margs.map (" ".intercalate ·)))
+  | none => pure base
 
 def negInf : Float := -(1.0 / 0.0)
 
